@@ -26,6 +26,10 @@ const (
 	FMemb   = "members" // link set teams -> people
 	FSvc    = "svc"     // ref counted people -> teams
 	FUsers  = "users"   // ref counted teams -> people
+	FChief      = "chief"      // fk teams -> staff (child store)
+	FChiefOf    = "chiefOf"    // its back-reference set, on staff
+	FSquads     = "squads"     // link set staff -> teams
+	FSquadStaff = "squadStaff" // link set teams -> staff
 	FLead   = "lead"
 	FGrade  = "grade"
 	ExtPath = "ext"
@@ -37,6 +41,9 @@ type Config struct {
 	TeamMode      string `json:"teamMode"` // off | idx | idxNull | idxCascade | conNone | conNoneNull | conCascade | conCascadeNull
 	ChildExtended bool   `json:"childExtended"`
 	LinksViaEntity bool  `json:"linksViaEntity"` // people.teams also persisted through PersistEntity/SetLinkedIds
+	// constraints and link sets registered on the child store: teams.chief -> staff (nullable fk index, back-references in
+	// staff.chiefOf) and the link collection staff.squads <-> teams.squadStaff
+	ChildFeatures bool `json:"childFeatures"`
 }
 
 type Person struct {
@@ -58,7 +65,8 @@ type Staff struct {
 }
 
 type Team struct {
-	Id string
+	Id    string
+	Chief *string // (ChildFeatures)
 }
 
 func (e *Team) GetId() string         { return e.Id }
@@ -108,11 +116,19 @@ func (s *staffStrategy) PersistEntity(e *Staff, ctx *boltz.PersistContext) {
 	ctx.SetString(FGrade, e.Grade)
 }
 
-type teamStrategy struct{}
+type teamStrategy struct{ cfg *Config }
 
-func (teamStrategy) NewEntity() *Team                         { return &Team{} }
-func (teamStrategy) FillEntity(*Team, *boltz.TypedBucket)     {}
-func (teamStrategy) PersistEntity(*Team, *boltz.PersistContext) {}
+func (teamStrategy) NewEntity() *Team { return &Team{} }
+func (s teamStrategy) FillEntity(e *Team, b *boltz.TypedBucket) {
+	if s.cfg.ChildFeatures {
+		e.Chief = b.GetString(FChief)
+	}
+}
+func (s teamStrategy) PersistEntity(e *Team, ctx *boltz.PersistContext) {
+	if s.cfg.ChildFeatures {
+		ctx.SetStringP(FChief, e.Chief)
+	}
+}
 
 type PeopleStore struct {
 	*boltz.BaseStore[*Person]
@@ -129,7 +145,9 @@ type PeopleStore struct {
 
 type StaffStore struct {
 	*boltz.BaseStore[*Staff]
-	IdxGrade boltz.ReadIndex
+	IdxGrade  boltz.ReadIndex
+	SymSquads boltz.EntitySetSymbol
+	Squads    boltz.LinkCollection // staff.squads <-> teams.squadStaff (ChildFeatures)
 }
 
 type TeamStore struct {
@@ -139,6 +157,8 @@ type TeamStore struct {
 	SymTRep    boltz.EntitySetSymbol
 	Links      boltz.LinkCollection
 	Rc         boltz.RefCountedLinkCollection
+	SymSquadStaff boltz.EntitySetSymbol
+	Squads        boltz.LinkCollection // teams.squadStaff <-> staff.squads (ChildFeatures)
 }
 
 // SetChange is one invocation of the set-index change listener on roles.
@@ -175,7 +195,7 @@ func New(cfg Config) *Stores {
 
 	teams := &TeamStore{BaseStore: boltz.NewBaseStore(boltz.StoreDefinition[*Team]{
 		EntityType:     TypeTeams,
-		EntityStrategy: teamStrategy{},
+		EntityStrategy: teamStrategy{cfg: &s.Cfg},
 		BasePath:       []string{"stores"},
 		EntityNotFoundF: func(id string) error {
 			return boltz.NewNotFoundError(TypeTeams, "id", id)
@@ -323,6 +343,16 @@ func New(cfg Config) *Stores {
 	staff.AddSymbol(FLead, ast.NodeTypeBool)
 	symGrade := staff.AddSymbol(FGrade, ast.NodeTypeString)
 	staff.IdxGrade = staff.AddUniqueIndex(symGrade)
+
+	if cfg.ChildFeatures {
+		symChiefOf := staff.AddFkSetSymbol(FChiefOf, teams)
+		symChief := teams.AddFkSymbol(FChief, staff)
+		teams.AddNullableFkIndex(symChief, symChiefOf)
+		staff.SymSquads = staff.AddFkSetSymbol(FSquads, teams)
+		teams.SymSquadStaff = teams.AddFkSetSymbol(FSquadStaff, staff)
+		staff.Squads = staff.AddLinkCollection(staff.SymSquads, teams.SymSquadStaff)
+		teams.Squads = teams.AddLinkCollection(teams.SymSquadStaff, staff.SymSquads)
+	}
 
 	// ---- links
 	people.Links = people.AddLinkCollection(people.SymTeams, teams.SymMembers)
